@@ -61,7 +61,7 @@ def _sfx(name, suffix):
 
 
 class State:
-    __slots__ = ("store", "facts", "atoms", "effects", "frames", "epochs", "seq", "visited", "trace")
+    __slots__ = ("store", "facts", "atoms", "effects", "frames", "epochs", "seq", "visited", "trace", "hav")
 
     def __init__(self):
         self.store = {}
@@ -73,6 +73,7 @@ class State:
         self.seq = 0
         self.visited = set()
         self.trace = []
+        self.hav = []
 
     def copy(self):
         s = State()
@@ -82,6 +83,7 @@ class State:
         s.effects = list(self.effects)
         s.frames = list(self.frames)
         s.epochs = dict(self.epochs)
+        s.hav = list(self.hav)
         s.seq = self.seq
         s.visited = set(self.visited)
         s.trace = list(self.trace)
@@ -105,9 +107,35 @@ def is_prefix(a, b):
             return False
 
 
+def fields_beyond(pt, anc):
+    """(of, name) pairs of the field projections of `pt` below its ancestor `anc`."""
+    out = []
+    while pt != anc and pt[0] in ("fld", "idx", "cidx", "sub", "dc"):
+        if pt[0] == "fld":
+            out.append((pt[3], pt[2]))
+        pt = pt[1]
+    return out
+
+
+def affects(pt, ev_pt, locs):
+    if is_prefix(pt, ev_pt):
+        return True
+    if not is_prefix(ev_pt, pt):
+        return False
+    if locs is None:
+        return True
+    fb = fields_beyond(pt, ev_pt)
+    named = [x for x in fb if x[0] and not x[0].startswith(("core::", "alloc::"))]
+    if not named:
+        return True
+    return any(x in locs for x in named)
+
+
 class Evaluator:
     def __init__(self, crate, inline=(), inline_depth=3, stop_blocks=(), ptr=64, pure_calls=(),
-                 max_paths=MAX_PATHS, record_trace=False, extra_crates=()):
+                 max_paths=MAX_PATHS, record_trace=False, extra_crates=(), effects=None, max_blocks=None):
+        self.effects = effects
+        self.max_blocks = max_blocks
         self.crate = crate
         self.crates = [crate] + list(extra_crates)
         self.inline = tuple(inline)
@@ -149,6 +177,15 @@ class Evaluator:
         # foreign enums (Option / Result): discriminant = variant index, filled by caller
         return None
 
+    def variant_discrs(self, adt_path):
+        for c in self.crates:
+            a = c.adts.get(adt_path)
+            if a and a["kind"] == "enum":
+                return [int(v["discr"]) for v in a["variants"]]
+        if adt_path.endswith("option::Option") or adt_path.endswith("result::Result"):
+            return [0, 1]
+        return None
+
     def is_fieldless_enum(self, adt_path):
         for c in self.crates:
             a = c.adts.get(adt_path)
@@ -187,6 +224,16 @@ class Evaluator:
         v = st.store.get(pt)
         if v is not None:
             return v
+        sh = st.store.get(("$shape", pt))
+        if sh is not None:
+            if sh[0] == "agg":
+                return ("agg", sh[1], sh[2], sh[3], tuple(self.read(st, ("fld", pt, n, sh[1])) for n in sh[3]))
+            if sh[0] == "tuple":
+                return ("tuple", tuple(self.read(st, ("fld", pt, str(i), "")) for i in range(sh[1])))
+            if sh[0] == "closure":
+                return ("closure", sh[1], tuple(self.read(st, ("fld", pt, str(i), sh[1])) for i in range(sh[2])))
+            if sh[0] == "array":
+                return ("array", tuple(self.read(st, ("cidx", pt, i, False)) for i in range(sh[1])))
         k = pt[0]
         if k in ("fld", "dc", "idx", "cidx"):
             base = self.read_opt(st, pt[1])
@@ -227,9 +274,9 @@ class Evaluator:
         if r[0] == "local":
             # reading an unwritten local: argument or uninitialised
             frame, l = r[1], r[2]
-            if pt == r and r not in st.epochs:
+            if pt == r and not self._epoch(st, pt):
                 return ("unknown", "local%d.%d" % (frame, l))
-        return ("load", pt, st.epochs.get(self._epoch_key(pt), 0))
+        return ("load", pt, self._epoch(st, pt))
 
     def read_opt(self, st, pt):
         v = st.store.get(pt)
@@ -243,12 +290,17 @@ class Evaluator:
                 return v
         return None
 
-    def _epoch_key(self, pt):
-        return root_of(pt)
+    def _epoch(self, st, pt):
+        for i in range(len(st.hav) - 1, -1, -1):
+            ev_pt, locs = st.hav[i]
+            if affects(pt, ev_pt, locs):
+                return i + 1
+        return 0
 
     def write(self, st, pt, v):
         # drop more specific entries and partially overwritten aggregates
-        for k in [k for k in st.store if k != pt and is_prefix(pt, k)]:
+        for k in [k for k in st.store if k != pt and (is_prefix(pt, k) or
+                                                      (k[0] in ("$shape", "$variant") and is_prefix(pt, k[1])))]:
             del st.store[k]
         # a write into a sub-place of a stored aggregate: rewrite the aggregate when simple, else split
         parent = pt
@@ -274,27 +326,29 @@ class Evaluator:
                 st.store[("fld", base, n, pv[1])] = o
                 st.store[("fld", ("dc", base, pv[2]), n, pv[1])] = o
             st.store[("$variant", parent)] = ("str", pv[1], pv[2])
+            st.store[("$shape", parent)] = ("agg", pv[1], pv[2], pv[3])
         elif pv[0] == "tuple":
             for i, o in enumerate(pv[1]):
                 st.store[("fld", parent, str(i), "")] = o
+            st.store[("$shape", parent)] = ("tuple", len(pv[1]))
         elif pv[0] == "closure":
             for i, o in enumerate(pv[2]):
                 st.store[("fld", parent, str(i), pv[1])] = o
+            st.store[("$shape", parent)] = ("closure", pv[1], len(pv[2]))
         elif pv[0] == "array":
             for i, o in enumerate(pv[1]):
                 st.store[("cidx", parent, i, False)] = o
+            st.store[("$shape", parent)] = ("array", len(pv[1]))
 
-    def havoc(self, st, pt):
-        for k in [k for k in st.store if isinstance(k, tuple) and k and k[0] != "$variant" and
-                  (is_prefix(pt, k) or is_prefix(k, pt))]:
+    def havoc(self, st, pt, locs=None):
+        for k in [k for k in st.store if isinstance(k, tuple) and k and k[0] not in ("$variant", "$shape") and affects(k, pt, locs)]:
             # keep entries that are strict ancestors holding references (the reference itself is unchanged)
             if is_prefix(k, pt) and k != pt:
                 v = st.store[k]
                 if v[0] == "ref":
                     continue
             del st.store[k]
-        ek = self._epoch_key(pt)
-        st.epochs[ek] = st.epochs.get(ek, 0) + 1 + st.seq
+        st.hav.append((pt, locs))
 
     # ------------------------------------------------------------------ operands / rvalues
     def const_term(self, k):
@@ -454,7 +508,12 @@ class Evaluator:
         if "discr" in rv:
             pt = self.resolve(st, frame, fn, Place(rv["discr"]))
             v = self.read(st, pt)
-            return self.mk_discr(st, v, pt)
+            d = self.mk_discr(st, v, pt)
+            if d[0] == "discr" and rv.get("adt"):
+                vals = self.variant_discrs(rv["adt"])
+                if vals:
+                    st.facts.constrain(d, ISet._norm([(x, x) for x in vals]))
+            return d
         if "repeat" in rv:
             o, n = rv["repeat"]
             return ("pure", "repeat", (self.operand(st, frame, fn, o), ("int", n if n is not None else -1)))
@@ -569,6 +628,9 @@ class Evaluator:
             if key in st.visited:
                 self._finish(st, ("backedge", bb))
                 return
+            if self.max_blocks is not None and len(st.visited) >= self.max_blocks:
+                self._finish(st, ("stop", bb))
+                return
             st.visited.add(key)
             if self.record_trace:
                 st.trace.append((fn.id, bb))
@@ -632,7 +694,8 @@ class Evaluator:
                     d = st.facts.get(v).single()
                     if d is not None:
                         v = ("int", d)
-                targets = [(int(x), b) for x, b in t["targets"]]
+                sty = self.operand_ty(fn, t["switch"])
+                targets = [(wrap(int(x), sty, self.ptr) if sty else int(x), b) for x, b in t["targets"]]
                 if is_const(v):
                     cv = const_val(v)
                     nb = t["otherwise"]
@@ -709,8 +772,15 @@ class Evaluator:
         seq = st.seq
         res = ("call", callee, tuple(args), seq)
         st.effects.append(("call", callee, tuple(args), t.get("sp", ""), seq, tuple(c.get("closures", []))))
-        for a in args:
-            self._havoc_arg(st, a)
+        summ = self.effects.lookup(cid) if (self.effects is not None and cid) else None
+        for j, a in enumerate(args):
+            if summ is not None and a[0] == "ref" and a[2]:
+                if (j + 1) in summ["WP"]:
+                    self.havoc(st, a[1], None)
+                else:
+                    self.havoc(st, a[1], summ["W"])
+            else:
+                self._havoc_arg(st, a)
         self.write(st, dest, res)
         if root_of(dest)[0] != "local":
             st.effects.append(("store", dest, res, t.get("sp", "")))
@@ -806,14 +876,15 @@ class Evaluator:
 def term_contains(t, pred):
     if not isinstance(t, tuple):
         return False
-    if pred(t):
+    if t and isinstance(t[0], str) and pred(t):
         return True
     return any(term_contains(x, pred) for x in t if isinstance(x, tuple))
 
 
 def subterms(t):
     if isinstance(t, tuple):
-        yield t
+        if t and isinstance(t[0], str):
+            yield t
         for x in t:
             if isinstance(x, tuple):
                 yield from subterms(x)
